@@ -231,7 +231,7 @@ theorem update_defined (ops : FOps) (s : Schema) (db : Db) (id : Nat) (x : Snap)
     Defined (db.update ops s id x).2 := by
   unfold Db.update
   cases hw : writeStore ops s x with
-  | ok r => simp only; split <;> first | exact Defined.throw _ | exact Defined.ok _
+  | ok r => simp only; split <;> (try split) <;> first | exact Defined.throw _ | exact Defined.ok _
   | throw e => exact Defined.throw _
   | ub u => exact absurd hw (writeStore_defined ops s x u)
 
@@ -243,7 +243,9 @@ theorem update_dbOk (ops : FOps) (s : Schema) (db : Db) (hd : dbOk db = true) (i
     simp only
     split
     · exact hd
-    · exact dbOk_put hd id (writeStore_rowOk ops s x r hw)
+    · split
+      · exact hd
+      · exact dbOk_put hd id (writeStore_rowOk ops s x r hw)
   | throw e => exact hd
   | ub u => exact hd
 
@@ -314,7 +316,7 @@ theorem step_defined (ops : FOps) (s : Schema) (db : Db) (hd : dbOk db = true) (
     simp only [step]
     cases db.get id with
     | some r => exact lift_defined _ _ _ (update_defined ops s db id x)
-    | none => exact lift_defined _ _ _ (writeStore_defined ops s x)
+    | none => exact lift_defined _ _ _ (update_defined ops s db id x)
   | snapshot id => exact lift_defined _ _ _ (snapshot_defined ops db hd id)
   | get id g =>
     simp only [step]
@@ -335,7 +337,7 @@ theorem step_dbOk (ops : FOps) (s : Schema) (db : Db) (hd : dbOk db = true) (op 
     simp only [step]
     cases db.get id with
     | some r => simp only [lift_fst]; exact update_dbOk ops s db hd id x
-    | none => simp only [lift_fst]; exact hd
+    | none => simp only [lift_fst]; exact update_dbOk ops s db hd id x
   | snapshot id => simp only [step, lift_fst]; exact hd
   | get id g =>
     simp only [step]
